@@ -42,6 +42,20 @@ def gen_case(rng, sys_level=True, imports=False):
     return {"n": n, "cfg": cfg, "pre": sys_level and rng.random() < 0.3, "items": items}
 
 
+def enumerated_cases():
+    """all three-deep nests of contexts of two tracers (each enabled or disabled), the innermost one entered and left, with a
+    function-body / loop-in-function / lambda / top-level site after every exit: 4*4*4 = 64 histories"""
+    out = []
+    sites = [["site", "KFunc"], ["site", "KLoopInFunc"], ["site", "KLam"], ["site", "KTop"]]
+    combos = [(t, d) for t in (0, 1) for d in (False, True)]
+    for a in combos:
+        for b in combos:
+            for c in combos:
+                items = [["ctx", a[0], a[1], sites[:1] + [["ctx", b[0], b[1], sites[:2] + [["ctx", c[0], c[1], sites[:1]]] + sites]] + sites]] + sites[:2]
+                out.append({"n": 2, "cfg": [{"has_sys": False, "patch_meta": True}, {"has_sys": False, "patch_meta": True}], "pre": False, "items": items})
+    return out
+
+
 def count_sites(items):
     c = 0
     for it in items:
